@@ -14,7 +14,7 @@ NAME = "imusim"
 SIM_UNIT = "IMU frames"
 BUDGET = {"quick": {"runs": 2200, "wall": 80}, "thorough": {"runs": 60000, "wall": 1200}}
 SHRINK_LISTS = ("ops",)
-PROBES = {"C16": ["per-axis-noise-cov", "layout:strided", "layout:expanded-dt", "explicit-init-state", "reset=True-repeat", "chunk-of-one", "all-singletons", "F-not-pow2-minus-1", "rank-FH", "rank-H", "known-rot",
+PROBES = {"C16": ["prop_cov=False", "per-axis-noise-cov", "layout:strided", "layout:expanded-dt", "explicit-init-state", "reset=True-repeat", "chunk-of-one", "all-singletons", "F-not-pow2-minus-1", "rank-FH", "rank-H", "known-rot",
                   "integrated-rot+gravity", "zero-gravity", "float32", "batch>1", "nonidentity-init"]}
 
 # tolerance constants: calibrated on the repaired tree, worst observed ratio noted in DESIGN.md
@@ -324,6 +324,15 @@ def execute(plan, prop, out, tr):
             out.ops += 1
         out.probe("explicit-init-state")
         out.sigs.add("F%d|explicit|c%d" % (min(F, 64), min(len(chunks), 8)))
+    # --- (ii-c) covariance propagation switched off (allowed only with reset=True): the states are the same
+    if rng.H(s, "nocov") % 4 == 0:
+        m6 = pp.module.IMUPreintegrator(pos=p0.clone(), rot=r0.clone(), vel=v0.clone(), gravity=c["gravity"], reset=True, prop_cov=False)
+        m6 = m6.double() if dtype == torch.float64 else m6
+        r6 = _guard(lambda: feed(m6, 0, F, "BFH"), "prop_cov=False call", 0, "raises:nocov")
+        compare("nocov", r6, 0)
+        if r6.get("cov") is not None:
+            raise Violation("C16.cov", "prop_cov=False returned a covariance", 0, "cov:nocov")
+        out.probe("prop_cov=False"); out.ops += 1
     # --- (iii) ranks
     if B == 1:
         m3 = mk()
